@@ -24,10 +24,12 @@ ASSUMPTIONS = [
     'C05_pair_coverage_reduction reduces it to home_assigned + margin_coverage, C05_margin_coverage_exact_nowrap proves those in exact arithmetic '
     'away from the seam from the two margin inequalities; floating point, the seam wrap cell and the real-number margin inequalities are not '
     'connected: the correspondence run searches for counterexamples (output is canonical, so any missed link shows up as a different array)',
-    'inputs: 2..64 points, RA written anywhere in [-720, 1080] degrees (conventional range, exactly 0.0 / 360.0, RA + 360, RA - 360), |Dec| <= 90, '
+    'inputs: 2..64 points (family `large`: 135..300), RA written anywhere in [-720, 1080] degrees (conventional range, exactly 0.0 / 360.0, RA + 360, RA - 360), |Dec| <= 90, '
     'linklength 1 mas .. 20 deg, chunksize None or any positive value (values below 4*linklength are raised by the code)',
     'pairs whose separation is within 1e-9 (relative) of the linking length are not generated except in family `near` (1e-4 for integer / float32 '
     'coordinate arrays); inside the band 1e-9 L + 1e-13 rad either link decision is accepted (the implementation\'s is used)',
+    'coordinate arrays of any layout / byte order / writeability (family `layout`); plain Python lists are outside (the code uses .size); '
+    'linklength / chunksize as Python or NumPy scalars or 0-d arrays (family `argtype`; with a float32 linking length pairs within 1e-4 of it are not judged)',
     'coordinate arrays: float64, float32, int64, int32, int16 (whole degrees) and mixtures; 8-bit integer arrays are excluded (RA does not fit; '
     'numpy wraps dec.max()-dec.min())',
 ]
@@ -70,6 +72,12 @@ def start_point(rng, ll, where):
 def gen_base(rng, fam):
     if fam == 'near':
         return near_case(rng)
+    if fam == 'layout':
+        return layout_case(rng)
+    if fam == 'argtype':
+        return argtype_case(rng)
+    if fam == 'large':
+        return large_case(rng)
     if fam == 'dtype':
         return dtype_case(rng)
     if fam == 'pole-exact':
@@ -550,6 +558,152 @@ def near_case(rng):
             'chunksize': rng.choice([None, None, max(4 * ll, 0.05), 0.5])}
 
 
+# --------------------------------------------------------------------------- round 6 families
+
+LAYOUTS = ['contig', 'strided', 'reversed', 'col2d', 'fortran-row', 'bigendian', 'readonly']
+
+
+def layout_case(rng):
+    """memory layout of the coordinate arrays (class B): every other element of a buffer, negative stride, a column of a 2-D
+    table, a row of a Fortran-ordered table, big-endian, read-only -- the same numbers, so the same answer"""
+    base = gen_base(rng, rng.choice(['chain-ra', 'chain-diag', 'clusters', 'joined', 'seam', 'seam-norm', 'dtype', 'polar-cap', 'edge-lattice']))
+    c = dict(base)
+    c['layout'] = {'ra': rng.choice(LAYOUTS), 'dec': rng.choice(LAYOUTS)}
+    if c['layout']['ra'] == c['layout']['dec'] == 'contig':
+        c['layout']['ra'] = rng.choice(LAYOUTS[1:])
+    c['base_fam'] = base['fam']
+    c['fam'] = 'layout'
+    return c
+
+
+def argtype_case(rng):
+    """linklength / chunksize in other Python / NumPy types (class E): int, numpy float64 / float32 / int64 scalars, 0-d array,
+    chunksize=None given explicitly"""
+    kL = rng.choice(['int', 'float64', 'float32', '0-d-float', 'int64', 'float'])
+    if kL in ('int', 'int64'):
+        ll = float(rng.choice([1, 2, 3]))
+    elif kL == 'float32':
+        ll = rng.choice([0.5, 0.25, 2.0, 0.125, 1.5])
+    else:
+        ll = G.pick_L(rng, 0.01, 5.0)
+    pts = []
+    for _ in range(rng.randint(1, 3)):
+        s = start_point(rng, ll, rng.choice(['any', 'seam']))
+        pts += chain(rng, s, ll, rng.randint(3, 10), rng.choice([90.0, 0.0, 45.0, 270.0]))
+    for _ in range(rng.randint(1, 3)):
+        c0 = start_point(rng, ll, 'any')
+        for _ in range(rng.randint(1, 6)):
+            pts.append(G.offset_point(c0[0], c0[1], ll * rng.uniform(0.0, 2.5), rng.uniform(0, 360)))
+    pts = pts[:44]
+    rng.shuffle(pts)
+    kc = rng.choice(['none', 'explicit-None', 'int', 'float64', 'float32', 'float', 'int64'])
+    if kc in ('none', 'explicit-None'):
+        chunk = None
+    elif kc in ('int', 'int64'):
+        chunk = float(math.ceil(4.0 * ll) + rng.choice([0, 1, 5]))
+    elif kc == 'float32':
+        chunk = 4.0 * ll * rng.choice([1.0, 2.0, 4.0]) if kL in ('int', 'int64', 'float32') else float(math.ceil(4.0 * ll) + rng.choice([0, 1, 5]))
+    else:
+        chunk = ll * rng.choice([4.0, 5.0, 7.0, 12.0, 30.0])
+    at = {'linklength': kL}
+    if kc != 'none':
+        at['chunksize'] = kc
+    case = limit_cost({'fam': 'argtype', 'ra': [p[0] for p in pts], 'dec': [p[1] for p in pts], 'linklength': ll, 'chunksize': chunk, 'argtypes': at})
+    # limit_cost may have raised the chunk size: keep it a value the requested scalar type holds exactly
+    if case['chunksize'] is not None and kc in ('int', 'int64'):
+        case['chunksize'] = float(math.ceil(case['chunksize']))
+    elif case['chunksize'] is not None and kc == 'float32':
+        import struct
+        case['chunksize'] = struct.unpack('f', struct.pack('f', case['chunksize']))[0]
+    return case
+
+
+def large_case(rng, thorough=False):
+    """sizes beyond a one-byte counter (class D): more than 127 points in ONE group (a dense winding chain) or more than 127
+    groups (isolated points and pairs), thorough: beyond 255"""
+    ll = rng.choice([0.25, 0.5, 1.0])
+    n = rng.randint(135, 150) if not thorough else rng.choice([140, 200, 270, 300])
+    kind = rng.choice(['one-big-group', 'many-groups'])
+    ra0, dec0 = rng.uniform(30, 330), rng.uniform(-40, 40)
+    cosd = math.cos(dec0 * D2R)
+    pts = []
+    if kind == 'one-big-group':
+        w = rng.randint(9, 14)
+        s = ll * rng.uniform(0.75, 0.95)
+        k = 0
+        while len(pts) < n:
+            row, col = divmod(k, w)
+            if row % 2:
+                col = w - 1 - col
+            pts.append((G.norm_ra(ra0 + col * s / cosd), dec0 + row * s))
+            k += 1
+        for _ in range(rng.randint(0, 5)):
+            pts.append(G.sphere_point(rng))
+    else:
+        w = 14
+        s = ll * rng.uniform(2.2, 3.5)
+        for k in range(n):
+            row, col = divmod(k, w)
+            p = (G.norm_ra(ra0 + col * s / cosd), dec0 + row * s)
+            pts.append(p)
+            if rng.random() < 0.12:
+                pts.append(G.offset_point(p[0], p[1], ll * rng.choice([0.5, 0.9]), rng.uniform(0, 360)))
+    rng.shuffle(pts)
+    return limit_cost({'fam': 'large', 'ra': [p[0] for p in pts], 'dec': [p[1] for p in pts], 'linklength': ll,
+                       'chunksize': rng.choice([None, 4 * ll, 8 * ll]), 'large_kind': kind})
+
+
+def inplace_history(rng):
+    """class A (round 6): the caller keeps its ra / dec buffers and refills them in place between calls (`ra[:] = ...`,
+    `ra += d`): the very same array objects are passed again with other contents -- the same positions in another order,
+    positions moved by a fraction of a chunk, another field of the same size -- with the SAME linking length and chunk size
+    (what a cache could be keyed on) or with others.  Every call is judged on the contents the arrays then have"""
+    def small(n=None):
+        for _ in range(80):
+            c = gen_base(rng, rng.choice(['chain-ra', 'chain-diag', 'clusters', 'joined', 'seam', 'seam-norm', 'polar-cap', 'edge-lattice']))
+            if admissible(c) and len(c['ra']) >= 4 and not c.get('dtype'):
+                m = n if n is not None else rng.randint(4, min(24, len(c['ra'])))
+                if len(c['ra']) >= m:
+                    return dict(c, ra=c['ra'][:m], dec=c['dec'][:m])
+        return None
+    first = small()
+    if first is None:
+        return None
+    h = [first]
+    for _ in range(rng.randint(1, 3)):
+        prev = h[-1]
+        n = len(prev['ra'])
+        c = dict(prev)
+        t = rng.random()
+        if t < 0.4:
+            idx = list(range(n))
+            rng.shuffle(idx)
+            c['ra'], c['dec'] = [prev['ra'][i] for i in idx], [prev['dec'][i] for i in idx]
+            c['inplace_change'] = 'reordered'
+        elif t < 0.6:
+            cs = prev['chunksize'] if prev['chunksize'] is not None else max(4.0 * prev['linklength'], 0.1)
+            d = rng.choice([0.3, 1.0, 2.5]) * cs * rng.choice([-1.0, 1.0])
+            f = rng.choice([1.0, 1.0, 0.7, 1.4])       # (a stretch changes which pairs are linked)
+            m0 = sum(prev['dec']) / n
+            c['ra'] = [G.norm_ra(x + d) for x in prev['ra']]
+            c['dec'] = [max(-89.9, min(89.9, m0 + (x - m0) * f + 0.4 * d)) for x in prev['dec']]
+            c['inplace_change'] = 'moved'
+        else:
+            o = small(n)
+            if o is None:
+                continue
+            c = dict(o)
+            if rng.random() < 0.5:
+                c['linklength'], c['chunksize'] = prev['linklength'], prev['chunksize']
+            c['inplace_change'] = 'other-field'
+        c['reuse'] = True
+        h.append(limit_cost(c))
+    for c in h:
+        c['history_kind'] = 'same-array-objects-refilled-in-place'
+    h = [c for c in h if admissible(c)]
+    return h if len(h) >= 2 else None
+
+
 def history_cases(rng):
     """several spheregroup calls made one after the other in ONE implementation process: lists of equal length grouped one
     after the other, the identical call repeated, lists of different lengths interleaved"""
@@ -672,9 +826,9 @@ def run_synthetic(cases):
 
 
 FAMILIES = ['chain-ra', 'chain-dec', 'chain-diag', 'seam', 'pole', 'joined', 'clusters', 'highdec', 'polebound', 'dtype', 'pole-exact', 'near',
-            'seam-norm', 'seam-exact', 'seam-over', 'seam-neg', 'seam-neg-all', 'polar-cap', 'edge-lattice']
+            'seam-norm', 'seam-exact', 'seam-over', 'seam-neg', 'seam-neg-all', 'polar-cap', 'edge-lattice', 'layout', 'argtype']
 FAM_COUNT = {'polebound': (4, 40), 'seam-norm': (6, 120), 'seam-exact': (5, 100), 'seam-over': (5, 100), 'seam-neg': (4, 80), 'seam-neg-all': (3, 60),
-             'polar-cap': (6, 120), 'edge-lattice': (6, 120)}
+             'polar-cap': (6, 120), 'edge-lattice': (6, 120), 'layout': (5, 200), 'argtype': (4, 160)}
 
 HEADER = '''From Coq Require Import ZArith List. Import ListNotations.
 From PV Require Import C05.Model C05.Algo C05.Sky. Open Scope Z_scope.'''
@@ -748,6 +902,7 @@ def check_histories(ctx):
     the LAST call of the history, must be (components, lists_of) of that call's own list; inputs must be unchanged"""
     rng = ctx.rng
     hists = [h for h in (history_cases(rng) for _ in range(ctx.n(12, 200))) if h and len(h) >= 2]
+    hists += [h for h in (inplace_history(rng) for _ in range(ctx.n(10, 300))) if h and len(h) >= 2]
     hres = run_histories(hists)
     terms, where = [], []
     for hi, (h, rs) in enumerate(zip(hists, hres)):
@@ -760,7 +915,7 @@ def check_histories(ctx):
                               'call %d of a %d-call history (%s) raised %s (%s)' % (ci, len(h), c.get('history_kind'), r.get('err'), r.get('msg', '')[:60]),
                               {'kind': 'failing-input', 'history': h, 'call_index': ci, 'impl_result': {k: v for k, v in r.items() if k != 'adj'}}, True)
                 continue
-            if r['nearest_threshold_rel'] is not None and r['nearest_threshold_rel'] <= (1e-4 if c.get('dtype') else 1e-9):
+            if r['nearest_threshold_rel'] is not None and r['nearest_threshold_rel'] <= thr_rel(c):
                 continue
             terms.append(base_term(c, r))
             where.append((hi, ci))
@@ -781,7 +936,8 @@ def check_histories(ctx):
         bad += 1
         h, r = hists[hi], hres[hi][ci]
         overwritten = r.get('immediate') != r.get('ok')
-        sig = 'C05:history:%s' % ('result-overwritten-by-later-call' if overwritten else 'result-depends-on-earlier-calls')
+        sig = 'C05:history:%s' % ('result-overwritten-by-later-call' if overwritten else (
+            'stale-state-for-refilled-arrays' if r.get('reused') else 'result-depends-on-earlier-calls'))
         if sig in seen:
             continue
         seen.add(sig)
@@ -794,6 +950,7 @@ def check_histories(ctx):
                        'meaning': 'every call of the history is an admissible input on its own; the result of a call is what the caller holds: '
                                   'it is compared, in Coq, with C05.Model.spec_output of that call after the last call of the history'}, True)
     ctx.coverage['histories'] = {'histories': len(hists), 'calls_checked_in_coq': len(terms), 'rejected': bad,
+                                 'calls_on_refilled_array_objects': sum(1 for rs in hres for r in rs if r.get('reused')),
                                  'kinds': sorted(set(h[0].get('history_kind') for h in hists))}
 
 
@@ -826,6 +983,11 @@ def py_components(adj, n):
                     stack.append(b)
         g += 1
     return lab
+
+
+def thr_rel(c):
+    """pairs closer than this (relative) to the linking length are not judged: single-precision coordinates or linking length"""
+    return 1e-4 if (c.get('dtype') or 'float32' in (c.get('argtypes') or {}).values()) else 1e-9
 
 
 def admissible(c):
@@ -875,8 +1037,17 @@ def correspond(ctx, proof_ok=True):
     if not ok:
         raise RuntimeError('C05/Model.v does not build:\n' + log[-2000:])
     rng = ctx.rng
+    # development aid: VERIF_FAMILIES=layout,history restricts the run to the named families ('screen', 'synthetic', 'large',
+    # 'convex', 'history' name the other phases); unset (the normal case) = everything
+    import os
+    only = set(x for x in os.environ.get('VERIF_FAMILIES', '').split(',') if x)
+    want = lambda f: not only or f in only      # noqa: E731
+    if only:
+        ctx.coverage['families_restricted_to'] = sorted(only)
     bases = []
     for fam in FAMILIES:
+        if not want(fam):
+            continue
         for _ in range(ctx.n(*FAM_COUNT.get(fam, (9, 200)))):
             c = gen_base(rng, fam)
             if admissible(c):
@@ -885,7 +1056,7 @@ def correspond(ctx, proof_ok=True):
     ctx.coverage['pydl_file'] = info['pydl_file']
     extra = []
     for c, r in zip(bases, r0):
-        if len(extra) < ctx.n(10, 400):
+        if len(extra) < ctx.n(10, 400) and want('convex'):
             e = convex_variant(rng, c, r)
             if e is not None and admissible(e):
                 extra.append(e)
@@ -894,16 +1065,18 @@ def correspond(ctx, proof_ok=True):
     for c in bases + extra:
         cases.append(c)
         cases.append(reorder(rng, c))
-        cases.append(reorder(rng, c))
+        if c['fam'] not in ('layout', 'argtype') or ctx.thorough:      # (these two: 2 orders in the quick tier)
+            cases.append(reorder(rng, c))
     # deep-merge families: screened in volume by an uncertified comparison inside the implementation process; every
     # suspicious case and a fixed-size sample go through the full recorded run and the Coq evaluation below
-    sky = [lattice_tree(rng) for _ in range(ctx.n(6000, 200000))]
+    scr = 1 if want('screen') else 0
+    sky = [lattice_tree(rng) for _ in range(scr * ctx.n(6000, 200000))]
     n_tree = len(sky)
-    sky += [lattice_loop(rng) for _ in range(ctx.n(600, 30000))]
+    sky += [lattice_loop(rng) for _ in range(scr * ctx.n(600, 30000))]
     n_loop = len(sky) - n_tree
-    sky += [c for c in (multi_field(rng) for _ in range(ctx.n(800, 60000))) if c is not None]
+    sky += [c for c in (multi_field(rng) for _ in range(scr * ctx.n(800, 60000))) if c is not None]
     n_multi = len(sky) - n_tree - n_loop
-    for _ in range(ctx.n(40, 1500)):          # 40 sweeps of 49 placements
+    for _ in range(scr * ctx.n(40, 1500)):          # 40 sweeps of 49 placements
         sky += corner_lattice(rng)
     sky = [c for c in sky if admissible(c)]
     sky_sus = screen_batch(sky)
@@ -913,8 +1086,16 @@ def correspond(ctx, proof_ok=True):
     pick = [k for ks in by_fam.values() for k in ks[:6]] + list(range(0, n_tree, max(1, n_tree // ctx.n(8, 200)))) + \
         list(range(n_tree, len(sky), max(1, (len(sky) - n_tree) // ctx.n(12, 200))))
     cases += [sky[k] for k in sorted(set(pick))]
-    syn = [synthetic_case(rng) for _ in range(ctx.n(5000, 200000))]
-    for nn in (4, 5, 6):
+    # class D (round 6): more than 127 members in one group / more than 127 groups.  The certified evaluation of such a case costs about a
+    # minute of Coq (the oracle `components` and the per-cell models are far from linear), so in the quick tier they are screened (all four
+    # arrays against a brute-force labelling, uncertified) and only suspicious ones are evaluated in Coq; the thorough tier evaluates a few anyway
+    big = [c for c in (large_case(rng, ctx.thorough) for _ in range(ctx.n(6, 40) if want('large') else 0)) if admissible(c)]
+    big_sus = screen_batch(big) if big else []
+    cases += [big[k] for k in sorted(set(big_sus[:2] + list(range(min(ctx.n(0, 3), len(big))))))]
+    ctx.coverage['large_point_sets'] = {'screened': len(big), 'suspicious': len(big_sus), 'sizes': sorted(len(c['ra']) for c in big),
+                                        'rule': 'screening compares ingroup, multgroup, firstgroup, nextgroup with a brute-force labelling in the implementation process'}
+    syn = [synthetic_case(rng) for _ in range(ctx.n(5000, 200000) if want('synthetic') else 0)]
+    for nn in ((4, 5, 6) if want('synthetic') else ()):
         syn += exhaustive_edge_orders(rng, nn)
     syn = [c for c in syn if synthetic_covered(c)]
     syn_sus = screen_batch(syn)
@@ -957,7 +1138,7 @@ def correspond(ctx, proof_ok=True):
                           {'kind': 'failing-input', 'call': c, 'impl_result': {k: v for k, v in r.items() if k not in ('adj', 'rec')},
                            'meaning': 'the property promises a grouping for every list of two or more positions; the call raised instead'}, True)
             continue
-        if c['fam'] != 'near' and r['nearest_threshold_rel'] is not None and r['nearest_threshold_rel'] <= (1e-4 if c.get('dtype') else 1e-9):
+        if c['fam'] != 'near' and r['nearest_threshold_rel'] is not None and r['nearest_threshold_rel'] <= thr_rel(c):
             skipped += 1
             continue
         terms.append(case_term(c, r))
@@ -1017,7 +1198,8 @@ def correspond(ctx, proof_ok=True):
         'skipped_near_threshold': skipped,
         'samples': [dict(cases[n], impl=results[n]['ok']) for n in idx[:3]] + [dict(cases[n], impl=results[n]['ok']) for n in idx[-1:]],
     })
-    check_histories(ctx)
+    if want('history'):
+        check_histories(ctx)
     seen = set()
     for n, v in zip(idx, verdicts):
         if v == 0:
